@@ -113,8 +113,16 @@ def configured_patterns(ctx):
                 continue
             n_emit += 1
             gs = fg.guards(i)
+            # the emitted range [a, b) is non-empty: a length that is true / non-zero, or a != b for the two ends of the emitted range
+            ends = [g.text(x) for x in g.nodes[i].get("args", [])][:2]
+            ends = [re.sub(r"^\(?\w+\.begin\(\) \+ (\w+)\)?$", r"\1", e_) for e_ in ends]
+            ne_keys = set()
+            if len(ends) == 2 and all(re.match(r"^\w+$", e_) for e_ in ends):
+                a_, b_ = ends
+                ne_keys = {"(%s == %s)" % (a_, b_), "(%s == %s)" % (b_, a_)}
             nonempty = any(p is True and k in ("len", "(0 < len)", "(len != 0)", "(0 != len)", "(beg < end)", "(beg != end)", "(end != beg)") for k, p in gs) or \
-                any(p is False and k in ("(0 == len)", "(beg == end)", "(end == beg)", "(len == 0)") for k, p in gs)
+                any(p is False and (k in ("(0 == len)", "(beg == end)", "(end == beg)", "(len == 0)") or k in ne_keys) for k, p in gs) or \
+                any(p is True and re.match(r"^\w+$", k) and re.match(r"^\(?\(?%s - %s\)?\)?$" % tuple(map(re.escape, ends[::-1])), g.text(local_init(g, k, must=False)[0]) if local_init(g, k, must=False)[1] else "") for k, p in gs if len(ends) == 2)
             ctx.check(nonempty, "split-emits-no-empty-piece", "guarded_by", g.loc(i), "Util::split emits a piece only when it is non-empty",
                       "Util::split can emit an empty piece (guards: %s)" % sorted(gs, key=str))
     ctx.counters["split_emit_sites"] = n_emit
@@ -429,7 +437,7 @@ def run(ctx):
             if "recv" not in n or Xs_(n["recv"]) != "var:nextBestOptionStack" or n.get("cconst"):
                 continue
             nm = n.get("cname")
-            if nm in ("clear", "begin", "end", "empty", "size"):
+            if nm in ("clear", "begin", "end", "empty", "size", "operator[]", "at", "cbegin", "cend", "front", "back", "data", "reserve"):
                 continue
             t = Xs_(n["args"][0]) if n.get("args") else ""
             good = nm == "emplace_back" and (t.startswith("{elem(*std::make_shared(this->rankForKilling(") or
@@ -443,8 +451,8 @@ def run(ctx):
         if "recv" not in n or Xr_(n["recv"]) != "param:nextBestOptionStack" or n.get("cconst"):
             continue
         nm = n.get("cname")
-        if nm in ("pop_back", "back", "begin", "end", "empty", "size"):
-            continue
+        if nm in ("pop_back", "back", "begin", "end", "empty", "size", "operator[]", "at", "cbegin", "cend", "rbegin", "rend", "front", "data"):
+            continue        # reads / removal of the top
         t = Xr_(n["args"][0]) if n.get("args") else ""
         ctx.check(nm == "emplace_back" and t.startswith("{elem(*std::make_shared(this->rankForKilling(param:ctx, param:ctx.addChildrenToCacheAndGet("),
                   "stack-fill:resumeTryingToKillSomething", "provenance", rts.loc(i),
